@@ -483,4 +483,41 @@ theorem backprojection_reads_inside (N : Nat) (θ : ℝ) (r c : Nat) :
       (detT (outputSize (R := ℝ) N false / 2) θ r c) ^ 2 ≤ ((N : ℝ) / 2) ^ 2) :=
   ⟨detT_circle_bound (N / 2) θ r c, detT_nocircle_bound N θ r c⟩
 
+/-! ## 7. The optional `output_size` argument -/
+
+/-- **iradon_output_size_agree**: with an explicit `output_size` (any value: smaller, equal or
+larger than the sinogram width; circle on or off) iradon_torch is still skimage's iradon on the
+model — same grid radius `output_size // 2`, which is also the radius of the circle mask. -/
+theorem iradon_output_size_agree (sino : List (List ℝ)) (thetas : Option (List ℝ)) (name : FilterName)
+    (circle : Bool) (out : Nat) :
+    iradonTorchOut sino thetas name circle out = iradonSkOut sino thetas name circle out :=
+  iradonOut_agree sino thetas name circle out
+
+/-- the default-size functions are the explicit ones at the default output size. -/
+theorem iradon_default_output_size (sino : List (List ℝ)) (thetas : Option (List ℝ)) (name : FilterName) (circle : Bool) :
+    iradonTorch sino thetas name circle
+      = iradonTorchOut sino thetas name circle (outputSize (R := ℝ) (sino.headD []).length circle) ∧
+    iradonSk sino thetas name circle
+      = iradonSkOut sino thetas name circle (outputSize (R := ℝ) (sino.headD []).length circle) :=
+  ⟨rfl, rfl⟩
+
+/-- **iradon_output_size_linear / shape**: linear in the sinogram and `out × out` for every
+explicit output size, both implementations. -/
+theorem iradon_output_size_linear (a b : ℝ) (s1 s2 : List (List ℝ)) (h : SameShape s1 s2)
+    (thetas : Option (List ℝ)) (name : FilterName) (circle : Bool) (out : Nat) :
+    iradonTorchOut (linRows a b s1 s2) thetas name circle out
+      = linRows a b (iradonTorchOut s1 thetas name circle out) (iradonTorchOut s2 thetas name circle out) ∧
+    iradonSkOut (linRows a b s1 s2) thetas name circle out
+      = linRows a b (iradonSkOut s1 thetas name circle out) (iradonSkOut s2 thetas name circle out) :=
+  ⟨iradonTorchOut_linear a b s1 s2 h thetas name circle out, iradonSkOut_linear a b s1 s2 h thetas name circle out⟩
+
+theorem iradon_output_size_shape (sino : List (List ℝ)) (thetas : Option (List ℝ)) (name : FilterName) (circle : Bool)
+    (out : Nat) :
+    (iradonTorchOut sino thetas name circle out).length = out ∧
+    ∀ row ∈ iradonTorchOut sino thetas name circle out, row.length = out :=
+  iradonTorchOut_shape sino thetas name circle out
+
+example : (iradonTorchOut [[1, 2, 3], [4, 5, 6]] none .ramp true 5 : List (List ℝ)).length = 5 :=
+  (iradon_output_size_shape _ _ _ _ 5).1
+
 end QuantemModel.Props.C07
